@@ -26,6 +26,7 @@ class CliResult:
         self.cpu = 0.0
         self.maxrss = 0
         self.timeout = False
+        self.cpu_exceeded = False
         self.cwd = None
 
     def json_file(self, suffix):
@@ -57,9 +58,19 @@ class CliResult:
         return out
 
 
+def watchdog(res, run, label):
+    """True (and the run is marked inconclusive) when the wall-clock watchdog ended this CLI run"""
+    if res.timeout:
+        run.inconclusive.append("wall-clock watchdog ended a CLI run: %s" % (label,))
+        return True
+    return False
+
+
 def run_cli(doc_or_path, opts, stem="input", suffix=".json_solc", hashseed="0", timeout=600, extra_files=None,
             keep=False, env_extra=None, launcher=False, rlimit_as=None, collect_specs=False):
-    """doc_or_path: a dict (written as JSON), a string containing the file text, or a path to copy."""
+    """doc_or_path: a dict (written as JSON), a string containing the file text, or a path to copy.
+    timeout is a budget of CPU seconds (RLIMIT_CPU: res.cpu_exceeded, rc -24); the wall-clock watchdog
+    is 4 x timeout and only ever yields res.timeout (inconclusive, never a verdict)."""
     cwd = tempfile.mkdtemp(prefix="gasol_cli_")
     res = CliResult()
     res.cwd = cwd
@@ -90,13 +101,15 @@ def run_cli(doc_or_path, opts, stem="input", suffix=".json_solc", hashseed="0", 
     def pre():
         if rlimit_as:
             resource.setrlimit(resource.RLIMIT_AS, (rlimit_as, rlimit_as))
+        resource.setrlimit(resource.RLIMIT_CPU, (int(timeout), int(timeout) + 5))
     ru0 = resource.getrusage(resource.RUSAGE_CHILDREN)
     try:
-        p = subprocess.run(cmd, cwd=cwd, env=env, stdout=subprocess.PIPE, stderr=subprocess.PIPE, timeout=timeout,
+        p = subprocess.run(cmd, cwd=cwd, env=env, stdout=subprocess.PIPE, stderr=subprocess.PIPE, timeout=4 * timeout,
                            preexec_fn=pre)
         res.rc = p.returncode
         res.stdout = p.stdout.decode("utf8", "replace")
         res.stderr_tail = p.stderr.decode("utf8", "replace")[-3000:]
+        res.cpu_exceeded = p.returncode in (-24, -9)
     except subprocess.TimeoutExpired as e:
         res.timeout = True
         res.rc = -9
